@@ -74,6 +74,16 @@ def uniform_prior(n):
 
 
 def build_posterior(case):
+    if case['kind'] == 'filter':
+        # population-level parameters FIRST, then simulated individuals, then noise
+        y = np.array([[[1.0, 2.0]], [[1.5, 2.5]]])
+        pop = popbuild.build(case['fspec'], None)
+        nt = rp.n_top(case['fspec'], case['n_sim'])
+        return chi.PopulationFilterLogPosterior(
+            chi.GaussianFilter(y), [0.5, 1.5], ToyModel(2, 1), pop,
+            uniform_prior(nt + (0 if case['sigma_fixed'] else 1)),
+            sigma=[0.2] if case['sigma_fixed'] else None,
+            n_samples=case['n_sim']), None
     if case['kind'] == 'individual':
         ll = chi.LogLikelihood(
             ToyModel(2, 1), chi.GaussianErrorModel(), [1.0, 2.0, 1.5],
@@ -198,7 +208,7 @@ def w_format(case):
         oc.set_parallel_evaluation(False)
         table = oc.run(n_max_iterations=3)
     # --- dataset: every published name once, entries decode to raw positions
-    if hcase is None:
+    if hcase is None and case['kind'] != 'filter':
         ids_u = post.get_id()
         meaning = [(nm, None, p) for p, nm in enumerate(names)]
     else:
@@ -247,7 +257,8 @@ def w_format(case):
                      'expected': n * n_runs, 'observed': len(rows),
                      'behaviour': 'opt_len'})
     else:
-        full_ids = [post.get_id()] * n if hcase is None else list(post.get_id())
+        full_ids = [post.get_id()] * n if (
+            hcase is None and case['kind'] != 'filter') else list(post.get_id())
         for r in range(n_runs):
             for p in range(n):
                 row = rows.iloc[r * n + p]
@@ -268,7 +279,7 @@ def w_format(case):
                 continue
             break
     # --- read-back
-    if not viol:
+    if not viol and case['kind'] != 'filter':
         _readback(case, post, hcase, ds, viol, lab, n_runs, n_draws)
     return {'transitions': 6, 'outcome': key_of([lab, n_runs, n_draws,
                                                  sorted(ds.data_vars)]),
@@ -497,6 +508,13 @@ def build(tier, seed):
         for n_draws in (1, 2, 3):
             fmt.append({'kind': 'individual', 'id': 'x7', 'n_runs': n_runs,
                         'n_draws': n_draws})
+    for fspec in (rp.Comp([rp.G(1), rp.P(1)]), rp.LN(2), rp.Comp([rp.H(1), rp.G(1)])):
+        for sf in (True, False):
+            for n_sim in (2, 3):
+                for n_runs, n_draws in ((1, 2), (2, 2), (3, 1)):
+                    fmt.append({'kind': 'filter', 'fspec': fspec, 'sigma_fixed': sf,
+                                'n_sim': n_sim, 'n_runs': n_runs,
+                                'n_draws': n_draws})
     # parameter maps: every injective assignment of the three mechanistic names to
     # dataset variables (their own names included: swaps, shifts, cycles)
     pmaps = []
